@@ -345,9 +345,24 @@ func checkC10(o options) int {
 			continue
 		}
 		if err != nil {
-			die(2, "C10: a key evaluated alone in a fresh process differs from its in-session result, but the witness did not reproduce when replayed (simulator or harness nondeterminism?):\n%s", tail(out, 10))
+			// Two executions of the same texts gave different results and no
+			// decision the simulator makes (map orders, clock, randomness, process
+			// seed, process history) re-creates the difference: it comes from a
+			// source the simulator does not own (heap addresses, the runtime's
+			// per-process random state, ...). The observation itself is a
+			// violation of C10; it is published as such, flagged not replayable.
+			logf("isolated-oracle mismatch without a reproducing witness: %s", strings.TrimSpace(tail(out, 3)))
+			class = "disagree-unowned-source|" + strings.TrimPrefix(class, "disagree-history|")
+			writeJSONFile(rf, map[string]interface{}{"format": "verif-c10-history/unowned", "property": "C10", "class": class, "replayable": false,
+				"note": "a key evaluated alone in a fresh process differs from what the same texts gave inside a session, and neither another process seed nor the worker's replayed history re-creates the difference: the result depends on a source of nondeterminism that none of the simulator's seams owns (heap addresses, runtime-random state, ...). The file documents the observation; it need not reproduce", "mismatch": m, "census": census, "verif_seed": o.seed})
+			finals = append(finals, finalV{class, rf, "isolated oracle, unowned source of nondeterminism", nil, true})
+			continue
 		}
-		finals = append(finals, finalV{class, rf, "result depends on process history (isolated fresh-process oracle), rule " + m.Rule, nil, false})
+		what := "result depends on process history (isolated fresh-process oracle), rule " + m.Rule
+		if strings.HasPrefix(class, "disagree-procseed|") {
+			what = "result differs between two fresh processes that differ only in their process-level clock/randomness seed, rule " + m.Rule
+		}
+		finals = append(finals, finalV{class, rf, what, nil, false})
 	}
 	// pristine disagreement among real runs: a violation whatever caused it
 	realMulti, translationChecked := 0, 0
@@ -405,6 +420,7 @@ func checkC10(o options) int {
 	var violationLines, knownLines []string
 	unknownCount := 0
 	seenFinal := map[string]bool{}
+	unownedRules := map[string]bool{}
 	for _, f := range finals {
 		if strings.Contains(f.class, "(unreproduced)") && f.v != nil {
 			// the worker saw two different results for the same texts in two of its
@@ -424,6 +440,9 @@ func checkC10(o options) int {
 			}
 			seenFinal[f.class] = true
 		} else if strings.Contains(f.class, "disagree:") && f.v != nil {
+			if unownedRules[kindRule(f.class)] {
+				continue // the same rule's results already turned out not to be re-creatable
+			}
 			// replay in a fresh process; if the session alone does not reproduce, the
 			// difference depends on what the worker did in earlier sessions: rebuild
 			// that history and reduce it
@@ -440,7 +459,12 @@ func checkC10(o options) int {
 					f.class = "disagree-unowned-schedule|" + strings.TrimPrefix(f.class, "disagree:")
 					f.nonReplayable = true
 				} else if eerr != nil || c == "" {
-					die(2, "C10: worker %d reported %s in its session %d, but neither that session alone nor the worker's whole history reproduces it in a fresh process (simulator or harness nondeterminism?):\n%s", f.v.Worker, f.class, f.v.Index, tail(eout, 10))
+					// observed, but not re-creatable by any decision the simulator
+					// makes: an unowned source of nondeterminism (see above)
+					logf("worker %d reported %s in its session %d; neither that session alone nor the worker's whole history reproduces it in a fresh process: %s", f.v.Worker, f.class, f.v.Index, strings.TrimSpace(tail(eout, 2)))
+					f.class = "disagree-unowned-source|" + kindRule(f.class)
+					unownedRules[kindRule(f.class)] = true
+					f.nonReplayable = true
 				}
 				if f.nonReplayable {
 					goto decided
@@ -477,12 +501,15 @@ func checkC10(o options) int {
 				rp["class"] = f.class
 				rp["replayable"] = false
 				rp["note"] = "two executions of the same texts gave different results (witness: rendering_first / rendering_later), found while library code was running goroutines of its own; the simulator does not own that schedule, so this file documents the finding but need not reproduce it"
+				if !unownedSchedule {
+					rp["note"] = "two executions of the same texts in one process gave different results (witness: rendering_first / rendering_later), and neither the session alone nor the worker's whole history re-creates the difference in a fresh process: the result depends on a source of nondeterminism that none of the simulator's seams owns (heap addresses, runtime-random state, ...). The file documents the observation; it need not reproduce"
+				}
 				rp["census"] = census
 				rp["repo_tree"] = repoTree()
 				rp["verif_seed"] = o.seed
 				writeJSONFile(dst, rp)
 			}
-		} else if strings.Contains(f.class, "disagree:") || strings.Contains(f.class, "disagree-history|") {
+		} else if strings.Contains(f.class, "disagree:") || strings.Contains(f.class, "disagree-history|") || strings.Contains(f.class, "disagree-procseed|") {
 			// fresh-process confirmation of exactly the file that is published
 			out, err := run(scratch, nil, inst.bin, "c10-replay", f.replay)
 			reproduced := err != nil && strings.Contains(out, "REPRODUCED class="+f.class)
@@ -504,7 +531,22 @@ func checkC10(o options) int {
 				continue
 			}
 			if !reproduced && !strings.Contains(f.class, "(unreproduced)") {
-				die(2, "C10: replay of %s did not reproduce class %s in a fresh process (simulator nondeterminism?):\n%s", f.replay, f.class, tail(out, 10))
+				// it did reproduce while the witness was being built, and does not
+				// now: whatever decides it is not among the simulator's decisions
+				var rp map[string]interface{}
+				if err := readJSONGeneric(f.replay, &rp); err == nil {
+					rp["class"] = "disagree-unowned-source|" + strings.TrimPrefix(strings.TrimPrefix(f.class, "disagree:"), "disagree-history|")
+					rp["replayable"] = false
+					rp["note"] = "this witness reproduced while it was being reduced and did not when replayed once more in a fresh process: the difference depends on a source of nondeterminism that none of the simulator's seams owns. The file documents the observation; it need not reproduce"
+					rp["census"] = census
+					rp["repo_tree"] = repoTree()
+					rp["verif_seed"] = o.seed
+					writeJSONFile(dst, rp)
+				}
+				violationLines = append(violationLines, fmt.Sprintf("VIOLATION property=C10 replay=%s", dst))
+				logf("violation class %s (not replayable: unowned source of nondeterminism): %s", f.class, f.what)
+				exit = 1
+				continue
 			}
 			// confirmation under the real runtime (evidence, not a precondition)
 			conf := "n/a (history dependence, not map order)"
@@ -617,6 +659,15 @@ func checkC10(o options) int {
 		fmt.Printf("C10 ok: %v sessions, %v keyed observations compared, %v effective sessions, 0 unlisted violations\n", cov["evaluations"], cov["observations_compared"], cov["effective_sessions"])
 	}
 	return exit
+}
+
+// kindRule reduces a class to "<kind>|rule=<rule>" (no site list).
+func kindRule(class string) string {
+	c := strings.TrimPrefix(strings.TrimPrefix(class, "disagree-unowned-source|"), "disagree:")
+	if i := strings.Index(c, "|site="); i >= 0 {
+		c = c[:i]
+	}
+	return c
 }
 
 func escalatedClass(out string) string {
